@@ -307,6 +307,27 @@ def c04(run, params, events):
 
 
 # ------------------------------------------------------------------------------------------------ C05
+def independent_first_pass_candidates(run, query):
+    """the candidates of one whole query, one per selected seed peak, built by the coordinator's own steps called one after the other from here
+    (seeding over all references and both strands -> selection of at most peaksCount seeds -> refinement and alignment of EVERY selected seed);
+    None if the steps are no longer there under these names (then the oracle does not apply)"""
+    import itertools
+    wc = run.coordinator
+    try:
+        prim = getattr(wc, '_WorkflowCoordinator__getPrimaryCorrelations')
+        sec = getattr(wc, '_WorkflowCoordinator__getSecondaryCorrelation')
+        arow = getattr(wc, '_WorkflowCoordinator__getAlignmentRow')
+    except AttributeError:
+        return None
+    seeds = list(wc.peaksSelector.selectPeaks(itertools.chain.from_iterable(prim(r, query) for r in run.reference_maps)))
+    rows = []
+    for i, sp in enumerate(seeds):
+        pc, sc = sec(sp, i)
+        row, _ = arow(pc, sc, i)
+        rows.append(row)
+    return rows
+
+
 def c05(run, mode, peaks_count):
     viol = []
     qrys = {m.moleculeId: m for m in (run.query_maps or [])}
@@ -346,6 +367,21 @@ def c05(run, mode, peaks_count):
                 elif recs[qid]['Confidence'] != "{:.2f}".format(best):
                     viol.append((f"src/workflow_coordinator.py::_WorkflowCoordinator.__getBestAlignment::monitor::C05::first_pass_record_is_best_candidate",
                                  None, dict(query=qid, expected_confidence=best, got=recs[qid]['Confidence'])))
+    # ... and the candidates are ALL selected seeds: re-derived independently for a few queries of the set
+    if first_pass_file is not None and first_pass_file in per_file and run.coordinator is not None:
+        recs = {int(r['QryContigID']): r for r in per_file[first_pass_file]}
+        for qid in (sorted(qrys)[:2] + sorted(qrys)[-3:]):
+            try:
+                rows = independent_first_pass_candidates(run, qrys[qid])
+            except Exception:
+                rows = None
+            if not rows:
+                continue
+            best_row = max(rows, key=lambda r: r.confidence)
+            if best_row.alignedPairs and (qid not in recs or recs[qid]['Confidence'] != "{:.2f}".format(best_row.confidence)):
+                viol.append((f"src/workflow_coordinator.py::_WorkflowCoordinator.__align::monitor::C05::first_pass_record_is_the_best_over_all_selected_seeds",
+                             None, dict(query=qid, seeds=len(rows), best_confidence=best_row.confidence,
+                                        got=recs[qid]['Confidence'] if qid in recs else 'no record')))
     if mode == 'best' and '' in per_file:
         have = {int(r['QryContigID']) for r in per_file['']}
         aligned = {qid for qid, rows in list(first.items()) + list(second.items()) if any(r.alignedPairs for r in rows)}
